@@ -392,6 +392,9 @@ if BASE_CURRENCY is not None:
     #             = (base/dollar)/(currency/dollar)
     #             = base/currency
     for c in CURRENCY_DATA:
+        if not c.dollar_rate > 0:
+            # Corrupt entry, there is no way to convert to or from it.
+            continue
         mul = base.dollar_rate/c.dollar_rate
         if c.name in NAME_TO_UNIT and c.symbol in SYMBOL_TO_UNIT:
             # I found that some currencies have duplicate names.
